@@ -147,6 +147,8 @@ Definition base_rows : list row :=
     ("bpl", FBranch, o6 1 0 0 0 0 0); ("bmi", FBranch, o6 1 0 0 4 0 0); ("bhi", FBranch, o6 1 0 1 0 0 0);
     ("blos", FBranch, o6 1 0 1 4 0 0); ("bvc", FBranch, o6 1 0 2 0 0 0); ("bvs", FBranch, o6 1 0 2 4 0 0);
     ("bhis", FBranch, o6 1 0 3 0 0 0); ("blo", FBranch, o6 1 0 3 4 0 0);
+    (* neg_ok = true follows pdpy11's pattern letters: emt/trap use the "signed" field letter i (-2^8 < v < 2^8, stored
+       mod 2^8), spl/mark/xfc the unsigned letter I; this convention is taken from the code and disclosed in ASSUME *)
     ("emt", FNum 8 true, o6 1 0 4 0 0 0); ("trap", FNum 8 true, o6 1 0 4 4 0 0);
     ("clrb", FDst, o6 1 0 5 0 0 0); ("comb", FDst, o6 1 0 5 1 0 0); ("incb", FDst, o6 1 0 5 2 0 0);
     ("decb", FDst, o6 1 0 5 3 0 0); ("negb", FDst, o6 1 0 5 4 0 0); ("adcb", FDst, o6 1 0 5 5 0 0);
@@ -274,7 +276,9 @@ Inductive operand : Type :=
 | OAbs (a : Z)                    (* @#a *)
 | ORel (t : Z)                    (* bare expression with value t: relative operand, branch target, inline number *)
 | ORelDef (t : Z)                 (* @t *)
-| OAcc (n : Z).                   (* acN *)
+| OAcc (n : Z) (sym : option Z).  (* the token acN.  sym = value of a user symbol of that name, if one is defined:
+                                     acN is an accumulator only where a floating operand or accumulator is expected
+                                     (there it shadows the symbol); anywhere else it is that ordinary symbol *)
 
 (* operand classes of the formats *)
 Inductive okind : Type :=
@@ -334,7 +338,15 @@ Definition sem_rm (o : operand) (addr k : Z) : option soperand :=
   | OAbs a => omap SAbs (val16 a)
   | ORel t => Some (SRel (wrap16 t))
   | ORelDef t => Some (SRelDef (wrap16 t))
-  | OAcc _ => None
+  | OAcc _ sym => omap (fun t => SRel (wrap16 t)) sym      (* ordinary symbol: relative operand, refused if undefined *)
+  end.
+
+(* the value of an operand that is a bare expression (a defined symbol named acN included) *)
+Definition plain_value (o : operand) : option Z :=
+  match o with
+  | ORel t => Some t
+  | OAcc _ (Some t) => Some t
+  | _ => None
   end.
 
 Definition sem_operand (c : okind) (o : operand) (addr k : Z) : option soperand :=
@@ -343,29 +355,28 @@ Definition sem_operand (c : okind) (o : operand) (addr k : Z) : option soperand 
   | CRM => sem_rm o addr k
   | CFpRM =>
       match o with
-      | OAcc n => if (0 <=? n) && (n <=? 5) then Some (SAcc n) else None
+      | OAcc n _ => if (0 <=? n) && (n <=? 5) then Some (SAcc n) else None
       | OReg r => obind (sem_reg r) (fun r => if r <=? 5 then Some (SAcc r) else None)
       | _ => sem_rm o addr k
       end
-  | CAcc => match o with OAcc n => if (0 <=? n) && (n <=? 3) then Some (SAcc n) else None | _ => None end
+  | CAcc => match o with OAcc n _ => if (0 <=? n) && (n <=? 3) then Some (SAcc n) else None | _ => None end
   | CBr =>
-      match o with
-      | ORel t => let d := t - (addr + 2 * k + 2) in
+      match plain_value o with
+      | Some t => let d := t - (addr + 2 * k + 2) in
                   if Z.even d && (-256 <=? d) && (d <=? 254) then Some (STarget (wrap16 t)) else None
-      | _ => None
+      | None => None
       end
   | CSob =>
-      match o with
-      | ORel t => let d := t - (addr + 2 * k + 2) in
+      match plain_value o with
+      | Some t => let d := t - (addr + 2 * k + 2) in
                   if Z.even d && (-126 <=? d) && (d <=? 0) then Some (STarget (wrap16 t)) else None
-      | _ => None
+      | None => None
       end
   | CNum b neg_ok =>
       let num v := if ((if neg_ok then - 2 ^ b <? v else 0 <=? v)) && (v <? 2 ^ b) then Some (SNum (v mod 2 ^ b)) else None in
       match o with
-      | ORel v => num v
       | OImm v => num v      (* "emt #3": accepted, the hash is redundant *)
-      | _ => None
+      | _ => match plain_value o with Some v => num v | None => None end
       end
   end.
 
